@@ -409,9 +409,19 @@ def run_property(mod, tier='quick', seed=0, replay=None):
             outs = mod.run_impl_all([c for _, c in inputs])
         else:
             outs = []
+            timeouts = 0
             for _, c in inputs:
                 try:
-                    outs.append(mod.run_impl(c))
+                    # a module may bound the time the implementation gets for one case (IMPL_TIMEOUT, seconds: orders of
+                    # magnitude above what any generated case needs); once one case has run out of time the verdict is
+                    # settled, and the remaining cases get a short limit so that the check still ends
+                    limit = getattr(mod, 'IMPL_TIMEOUT', None)
+                    outs.append(call_with_timeout(mod.run_impl, c, limit if not timeouts else min(limit, 5)) if limit
+                                else mod.run_impl(c))
+                except ImplTimeout as e:
+                    timeouts += 1
+                    outs.append({'_exception': 'no result after %s s (the implementation does not return on this input)' % e,
+                                 '_where': 'time limit'})
                 except Exception as e:  # pylint: disable=broad-except
                     # an exception the harness does not expect from the implementation on a valid input
                     import traceback
@@ -479,7 +489,7 @@ def run_property(mod, tier='quick', seed=0, replay=None):
             # shrink the first one
             v = violations[0]
             small = shrink_case(mod, v['input'], workdir, want='prop') if hasattr(mod, 'shrink') else None
-            if small is not None:
+            if small is not None and small[1] is not None:
                 v['shrunk_input'], v['shrunk_impl_output'] = small
             p = write_replay(pid, 'violation', dict(property=pid, seed=seed, tier=tier, kind=v['kind'],
                                                     input=v.get('shrunk_input', v['input']),
@@ -607,8 +617,27 @@ def shrink_case(mod, inp, workdir, want='prop', rounds=12):
     return cur, cur_out
 
 
+class ImplTimeout(Exception):
+    pass
+
+
+def call_with_timeout(fn, arg, seconds):
+    import signal
+
+    def handler(signum, frame):
+        raise ImplTimeout(str(seconds))
+    old = signal.signal(signal.SIGALRM, handler)
+    signal.alarm(int(seconds))
+    try:
+        return fn(arg)
+    finally:
+        signal.alarm(0)
+        signal.signal(signal.SIGALRM, old)
+
+
 def safe_impl(mod, c):
     try:
-        return mod.run_impl(c)
-    except Exception:  # pylint: disable=broad-except
+        limit = getattr(mod, 'IMPL_TIMEOUT', None)
+        return call_with_timeout(mod.run_impl, c, min(limit, 5)) if limit else mod.run_impl(c)
+    except (Exception, ImplTimeout):  # pylint: disable=broad-except
         return None
